@@ -6,6 +6,7 @@ use crate::job::{Exec, Executor, Job, JobResult, JobSpec, Violation};
 use crate::oracles::Finding;
 
 pub mod c07;
+pub mod c08;
 pub mod c09;
 
 /// build the prepared job for a spec (runs compile + calibration); None = nothing to run
@@ -13,6 +14,7 @@ pub mod c09;
 pub fn make(spec: &JobSpec, ex: &mut Executor, out: &mut JobResult) -> Option<Box<dyn Job>> {
     match spec.check.as_str() {
         "C07" => c07::make(spec, ex, out),
+        "C08" => c08::make(spec, ex, out),
         "C09" => c09::make(spec, ex, out),
         other => {
             out.notes.push(format!("unknown check {other}"));
